@@ -74,6 +74,12 @@ case("gen-truncate-account", "C08", B, "            components[key] = common.cle
      "            components[key] = common.clean(values.get(key, \"\")).zfill(range_.length)[-range_.length :] if range_.length else \"\"", V)
 case("gen-wrong-error-class", "C08", B, "            raise exceptions.InvalidBranchCode(", "            raise exceptions.InvalidBankCode(", V, "R08-guards")
 case("gen-numerify-bare", "C08", CK, "        raise InvalidStructure(f\"Invalid characters in '{value}'\") from e", "        raise", V, "R08-errors")
+case("validate-first-digit", "C09", CK, "        return self.compute(components) == expected", "        return self.compute(components)[:1] == expected[:1]", V, "R09-same")
+case("accessor-one-short", "C09", B, "return self._get_slice(position.start, position.end)", "return self._get_slice(position.start, max(position.end - 1, position.start))", V, "R09-readback")
+case("random-bypass-be", "C09", B, '        if "positions" not in spec:\n            return', '        if "positions" not in spec or country_code == "BE":\n            return', V, "R09-funnel")
+case("pl-weights-consistent", "C09", "schwifty/checksum/poland.py", "weights = [3, 9, 7, 1, 3, 9, 7]", "weights = [3, 9, 7, 1, 3, 9, 1]", S)
+case("gen-key-format", "C06", B, 'algorithms.get(f"{country_code}:default")', 'algorithms.get(f"{country_code}-default")', V, "R06-dispatch")
+case("reader-field-renamed", "C07", B, 'bank.get("checksum_algo", "default")', 'bank.get("checksum_algorithm", "default")', V, "R07-dispatch")
 # ---- C10 / C11 -----------------------------------------------------------------------------------------------
 case("clean-ascii-ws", "C10", C, '_clean_regex = re.compile(r"\\s+")', '_clean_regex = re.compile(r"[ \\t\\n]+")', V, "whitespace")
 case("clean-re-ascii", "C10", C, '_clean_regex = re.compile(r"\\s+")', '_clean_regex = re.compile(r"\\s+", re.ASCII)', V, "whitespace")
@@ -94,7 +100,7 @@ case("index-not-accumulating", "C12", BIC, '    key=("country_code", "bank_code"
 case("bank-last-entry", "C12", B, "        return bank_entry and bank_entry[0]", "        return bank_entry and bank_entry[-1]", V, "R12-iban")
 case("reverse-primary-only", "C12", BIC, "return sorted({entry[key] for entry in entries})", 'return sorted({entry[key] for entry in entries if entry["primary"]})', V, "R12-inverse")
 # ---- C13 -----------------------------------------------------------------------------------------------------
-case("rstr-unseeded", "C13", B, "rstr = Rstr(random)", "rstr = Rstr()", V, "Rstr")
+case("rstr-unseeded", "C13", B, "rstr = Rstr(random)", "rstr = Rstr()", V, "foreign-draw")
 case("random-set-order", "C13", B, "country_code = random.choice(list(banks_by_country.keys()))", "country_code = random.choice(list(set(banks_by_country.keys())))", V, "set-iteration")
 case("random-unsorted-glob", "C13,C18", R, 'for entry in sorted(directory.glob("*.json")):', 'for entry in directory.glob("*.json"):', V)
 case("random-allow-invalid", "C13", I, "        return cls.from_bban(bban.country_code, bban)", "        return cls.from_bban(bban.country_code, bban, allow_invalid=True)", V, "R13-valid")
